@@ -261,6 +261,51 @@ class LinCtx:
                         pass
         return None
 
+    def concretised_search(self, mismatch, extra_forms=(), trials=40, per_query_ms=4000, budget_s=150, seed=1):
+        """Real-input witness for a lost carry when the non-linear queries are too hard: fix every input word but one to a concrete value (boundary
+        patterns and random words), so that each opaque word product becomes linear (or a univariate square) in the remaining word, and ask for an
+        input that makes one truncation quotient / dropped carry non-zero.  Returns the first environment with mismatch(env), else None."""
+        import random
+        rnd = random.Random(seed)
+        t0 = time.time()
+        ins = [i for i, k in self.kind.items() if k == "in"]
+        if not ins:
+            return None
+        base = list(self.solver.assertions())
+        cands = [f for f in extra_forms if isinstance(f, LV) and not f.is_const()] + [q for (r, q) in self.wraps.values() if not q.is_const()]
+        pats = [0, 1, (1 << 64) - 1, 1 << 63, (1 << 63) - 1, (1 << 64) - 2]
+        for trial in range(trials):
+            if time.time() - t0 > budget_s:
+                return None
+            free = ins[trial % len(ins)]
+            fixed = {}
+            for i in ins:
+                if i != free:
+                    hi = self.vhi[i]
+                    v = rnd.choice(pats) if rnd.random() < 0.35 else rnd.getrandbits(64)
+                    fixed[i] = v & hi if hi == (1 << hi.bit_length()) - 1 else min(v, hi)
+            defs = [self.zv[i] == v for i, v in fixed.items()]
+            for i, k in self.kind.items():
+                if isinstance(k, tuple) and k[0] == "prod":
+                    defs.append(self.zv[i] == self.z(k[1]) * self.z(k[2]))
+            for q in cands[:24]:
+                if time.time() - t0 > budget_s:
+                    return None
+                s = z3.Solver()
+                s.set("timeout", per_query_ms)
+                s.add(*base)
+                s.add(*defs)
+                s.add(self.z(q) >= 1)
+                if s.check() == z3.sat:
+                    m = s.model()
+                    env = {self.names[j]: m.eval(self.zv[j], model_completion=True).as_long() for j in range(len(self.names))}
+                    try:
+                        if mismatch(env):
+                            return env
+                    except Exception:
+                        pass
+        return None
+
     def model_for(self, cond):
         s = self.solver
         s.push()
